@@ -448,11 +448,12 @@ class Wtp:
         return self.db_path.with_stem(self.db_path.stem + "_backup")
 
     def backup_db(self) -> None:
-        self.backup_db_path.unlink(True)
         self.db_conn.commit()
         # Write the copy under another name and rename it when it is
         # complete: the next open installs whatever is at backup_db_path,
-        # so a half-written file there would cost all pages.
+        # so a half-written file there would cost all pages.  An earlier
+        # backup stays in place until the rename supersedes it, so a crash
+        # in here still restores that one.
         tmp_path = self.backup_db_path.with_name(
             self.backup_db_path.name + ".incomplete"
         )
